@@ -1,11 +1,5 @@
 package main
 
-// Properties without a registered check yet. Each line is removed when the
-// property's rules are armed; a property that ends up with no checkable
-// structural clause stays here with the final reason.
-func init() {
-	pending := "rules designed in DESIGN.md §4 but not armed yet in this revision of the checker; not claimed until they are"
-	for _, id := range []string{"C01", "C03", "C04", "C10", "C12", "C19", "C20"} {
-		declareNotApplicable(id, pending)
-	}
-}
+// Properties without a registered check. All twenty properties are claimed
+// through structural clauses at level `other`; nothing is listed here.
+func init() {}
